@@ -340,3 +340,19 @@ impl ReadCursor {
         }
     }
 }
+
+impl Drop for ReadCursor {
+    fn drop(&mut self) {
+        // Runs when the last handle is gone: free the final stream list and the
+        // positions it still lists (older lists and removed positions went through
+        // the memory manager).
+        unsafe {
+            let group = self.readers.load(Ordering::Relaxed);
+            for reader in &(*group).readers {
+                alloc::deallocate(*reader as *mut ReaderPos, 1);
+            }
+            ptr::read(group);
+            alloc::deallocate(group, 1);
+        }
+    }
+}
